@@ -90,7 +90,18 @@ class Machine:
             lvl += 1
         return f, lvl
 
+    existing_only = False     # set after a split: new coordinates would have to respect the partitions
+
     def point(self, sel, n):
+        if self.existing_only:
+            f, pt = self.root, []
+            for i in range(n):
+                if not isinstance(f, Fiber) or not f.coords:
+                    return None
+                j = sel[i] % len(f.coords)
+                pt.append(f.coords[j])
+                f = f.payloads[j]
+            return tuple(pt)
         return tuple(sel[i] % self.shape[i] for i in range(n))
 
     def leaf_fiber_from(self, other, lvl, default=None):
@@ -107,6 +118,9 @@ class Machine:
     def step(self, o, rec=None):
         """returns (outcome, info); outcome in {'ok', 'rejected', 'skipped'}"""
         k = o["op"]
+        if self.existing_only and k in ("populate", "denseref", "assign", "positionRef", "append", "extend",
+                                        "setitem", "fiber_arith", "updateCoords"):
+            return ("skipped", {})
         fn = getattr(self, "op_" + k)
         res = fn(o)
         self.log.append((k, res[0]))
@@ -124,6 +138,8 @@ class Machine:
     def op_ref(self, o):
         n = 1 + o["mode"] % self.d if o["mode"] % 4 == 0 else self.d     # mostly full points, sometimes prefixes
         pt = self.point(o["sel"] + o["sel"], n)
+        if pt is None:
+            return ("skipped", {})
         holder = self.t if (self.owned and o["mode"] % 3 == 0) else self.root
         ref = holder.getPayloadRef(*pt)
         if n == self.d:
